@@ -17,6 +17,14 @@ REGISTRY = {
         'not_covered': ['CertAuth::apply dispatch (event -> apply_*), CaObjectsStore pre-save handlers', 'liveness: the roll always completes'],
     },
 }
+REGISTRY['C05'] = {
+    'v': ['c05_routes', 'c05_child'],
+    'k': [],
+    'level_text': 'Routes::process_updates on the real text: refused exactly when some entry is invalid at its turn (unknown removal; invalid max length, prefix not held, already present with the same comment) -- both directions, for deltas of any length including duplicates inside one delta; an accepted delta returns the specified state and its events replay to it; a refused delta returns only the error. max_length_valid equals the statement definition.',
+    'level_note': 'ResourceSet::contains_roa_address uninterpreted (held); String equality axiom; HashMap key model for RoaPayloadJsonMapKey; derived Clone assumed value-preserving (R11); CertAuth command layer above is unverified (A8).',
+    'design_ref': 'DESIGN.md section 5 / C05',
+    'not_covered': ['AspaDefinitions::process_updates (iterator chains; outside V, K gave no verdict)', 'repository untouched on refusal (follows from no event, A8)'],
+}
 REGISTRY['C16'] = {
     'v': [],
     'k': ['k_api_roa'],
